@@ -488,6 +488,8 @@ func doSelect(fr *frame, instr *ssa.Select) value {
 		}
 	} else if !instr.Blocking {
 		chosen = -1
+		// a polling loop must not starve the goroutines it is waiting for
+		st.yield(g)
 	} else {
 		sel := &selState{}
 		n := 0
